@@ -50,6 +50,15 @@ def rec_scc(v, dbl, pad=False):
           "\n\n00:00:03:00\t9420 9420 94d0 94d0 c5c6 942f 942f\n\n00:00:05:00\t942c 942c\n\n")
 
 
+def rec_scc_inside(v, dbl, pad=False):
+  """The word under test in the MIDDLE of a channel-1 row that is still being composed: channel-1 text, then a block that is
+  addressed to channel 2 (its own resume / address / a character, then the word), then channel 1 resumes and the row goes on."""
+  block = ["1c20", "1c20", "1c70", "1c70", _w(0xE5E5)] + [_w(v)] * (2 if dbl else 1)
+  mid = " ".join([_w(0)] * len(block)) if pad else " ".join(block)
+  return ("Scenarist_SCC V1.0\n\n00:00:01:00\t9420 9420 9470 9470 c1c2\n\n00:00:01:10\t" + mid +
+          "\n\n00:00:01:20\t9420 9420 c3c4 942f 942f\n\n00:00:05:00\t942c 942c\n\n")
+
+
 def _doc_digest(text):
   import ttconv.scc.reader as reader
   import ttconv.model as m
@@ -117,6 +126,11 @@ def ignored_records():
         d = _doc_digest(rec_scc(v, dbl))
         ref = _doc_digest(rec_scc(v, dbl, pad=True))
         out.append({"kind": "ign", "v": v, "dbl": dbl, "same": 1 if d == ref else 0, "doc": d[:300], "ref": ref[:300]})
+        if hi >= 0x18 or hi in (0x15,):
+          # words for channel 2 / field 2 also inside a row that channel 1 is still composing
+          d = _doc_digest(rec_scc_inside(v, dbl))
+          ref = _doc_digest(rec_scc_inside(v, dbl, pad=True))
+          out.append({"kind": "ign", "v": v, "dbl": dbl, "same": 1 if d == ref else 0, "doc": d[:300], "ref": ref[:300], "inside": 1})
   return out
 
 
@@ -274,7 +288,17 @@ def run(ctx):
     lines.extend(tuple(ctx.rng.choice(ALPHABET) for _ in range(4)) for _ in range(3000))
   for k, ws in enumerate(lines):
     show = k % 2
-    line = SccLine(SmpteTimeCode.parse("00:00:00:00", FPS_30), [SccWord.from_value(x) for x in ws])
+    if k % 7 == 3 and ws:
+      # the line as it stands in a file: the words may be separated by more than one blank, blanks may follow the tab or
+      # the last word
+      sep = ["  ", " ", "   "][(k // 7) % 3]
+      text_line = "00:00:00:00\t" + ("" if (k // 21) % 2 else " ") + sep.join("%04x" % x for x in ws) + (" " if (k // 42) % 2 else "")
+      line = SccLine.from_str(text_line)
+      if line is None:
+        recs.append({"kind": "dis", "ws": list(ws), "show": show, "head": 0, "toks": []})
+        continue
+    else:
+      line = SccLine(SmpteTimeCode.parse("00:00:00:00", FPS_30), [SccWord.from_value(x) for x in ws])
     text = line.to_disassembly(show_channels=bool(show))
     head, toks = lex_disassembly(text)
     recs.append({"kind": "dis", "ws": list(ws), "show": show, "head": head, "toks": toks})
@@ -310,7 +334,7 @@ def run(ctx):
                              "document": rec["doc"], "document_with_padding": rec["ref"]}, {"count": rec["v"], "how": rec["how"]},
                     "%d captions interleaved with %s data: the reader decodes something else than channel 1" % (rec["v"], rec["how"]))
     elif rec["kind"] == "ign":
-      ctx.violation(clause, {"word": "0x%04X" % rec["v"], "scc": rec_scc(rec["v"], rec["dbl"]), "document_with_word": rec["doc"],
+      ctx.violation(clause, {"word": "0x%04X" % rec["v"], "scc": (rec_scc_inside if rec.get("inside") else rec_scc)(rec["v"], rec["dbl"]), "document_with_word": rec["doc"],
                              "document_with_padding": rec["ref"]}, {"word": rec["v"], "doubled": rec["dbl"]},
                     "word 0x%04X between two channel-1 captions changes what the reader decodes" % rec["v"])
     elif rec["kind"] == "w":
